@@ -863,7 +863,22 @@ func (env *Zlisp) FindObject(name string) (Sexp, bool) {
 func (env *Zlisp) Apply(fun *SexpFunction, args []Sexp) (Sexp, error) {
 	//VPrintf("\n\n debug Apply not working on user funcs: fun = '%#v'   and args = '%#v'\n\n", fun, args)
 	if fun.user {
-		return fun.userfun(env, fun.name, args)
+		// protect the host against panics in Go functions, as
+		// CallUserFunction does: Apply is also reached at macro-expansion
+		// time, outside any CallUserFunction.
+		var res Sexp = SexpNull
+		var err error
+		func() {
+			defer func() {
+				if recovered := recover(); recovered != nil {
+					res = SexpNull
+					err = fmt.Errorf("Apply caught panic during call of '%s': '%v'",
+						fun.name, recovered)
+				}
+			}()
+			res, err = fun.userfun(env, fun.name, args)
+		}()
+		return res, err
 	}
 
 	callState := env.captureControlState()
